@@ -12,6 +12,7 @@
 -/
 import PsutilModel.Proofs.C03Front
 import PsutilModel.Proofs.C03Gone
+import PsutilModel.Proofs.C03Deny
 import PsutilModel.Model.C03Gen
 namespace Psutil.C03
 open Spec
@@ -216,37 +217,20 @@ theorem C03_process_iter_swallow (attrs : List String) (h : ∀ nm ∈ attrs, nm
 
 /-! ## children() and parent(): lead L3 -/
 
-/-- full strength: children() is safe -/
-def C03_safe_children_Full : Prop := ∀ o : Obj, MethodOK o "children"
-def C03_safe_parent_Full : Prop := ∀ o : Obj, MethodOK o "parent"
+/-- children() (non recursive), repaired ppid_map(): for every admissible plan, any number of listed
+    PIDs and children — a value or a psutil error for the object's pid. In particular no bare
+    PermissionError (L3), and no AccessDenied carrying a child's pid: `Process(child)` may swallow
+    one refusal, but then the following `child.create_time()` cannot be refused again (deny
+    accounting in Proofs/C03Deny.lean) -/
+theorem C03_safe_children (o : Obj) : MethodOK o "children" := by
+  unfold MethodOK; rw [cfg_good]
+  exact ⟨_, rfl, safe_of_tri (children_safe _ o)⟩
 
-/-- what is proved of the repaired code: no bare OSError, no parsing error; a psutil error for
-    the object's pid — or AccessDenied carrying the pid of a child/parent whose create time had to
-    be read twice (needs two refusals, so it is excluded by `DenyOnce`; that last step is not
-    proved here and is covered by the exhaustive single/double fault correspondence) -/
-def WeakOK {α : Type} (pid : Nat) : Except PyExc α → Prop
-  | .ok _ => True
-  | .error e => e = .nsp pid ∨ e = .zombie pid ∨ e = .ad pid ∨ ∃ q, e = .ad q
-
-theorem weak_of_tri {α : Type} {pid : Nat} {m : M α} {Q : α → Prop} (h : Tri (OrAd pid) m Q)
-    (c : Ctx) (s : St) (ha : Adm c) (hi : CacheInv s.cache) : WeakOK pid (m c s).1 := by
-  have := h c s ha hi
-  rcases hr : m c s with ⟨res, s'⟩
-  rw [hr] at this
-  cases res with
-  | ok a => trivial
-  | error e =>
-    rcases this.1 with h | h
-    · rcases h with h | h | h <;> subst h <;> simp [WeakOK]
-    · exact Or.inr (Or.inr (Or.inr h))
-
-theorem C03_safe_children_partial (o : Obj) (c : Ctx) (s : St) (ha : Adm c) (hi : CacheInv s.cache) :
-    WeakOK o.pid (Fe.children cfg o c s).1 := by
-  rw [cfg_good]; exact weak_of_tri (children_partial_safe _ o) c s ha hi
-
-theorem C03_safe_parent_partial (o : Obj) (c : Ctx) (s : St) (ha : Adm c) (hi : CacheInv s.cache) :
-    WeakOK o.pid (Fe.parent cfg o c s).1 := by
-  rw [cfg_good]; exact weak_of_tri (parent_partial_safe _ o) c s ha hi
+/-- parent(): same statement (the /proc listing is never empty in an admissible world, so
+    `pids()[0]` cannot raise IndexError) -/
+theorem C03_safe_parent (o : Obj) : MethodOK o "parent" := by
+  unfold MethodOK; rw [cfg_good]
+  exact ⟨_, rfl, safe_of_tri (parent_safe _ o)⟩
 
 /-- ppid_map() itself lets nothing escape once PermissionError is tolerated -/
 theorem C03_ppid_map_total (c : Ctx) (s : St) (ha : Adm c) (hi : CacheInv s.cache) :
@@ -271,13 +255,13 @@ theorem adm_w0_deny (i : Nat) : Adm ⟨w0, alwaysAlive, denyAt i .EACCES⟩ := b
     Process(105).children() raise the bare builtin PermissionError -/
 theorem C03_children_prefix_counterexample :
     ¬ (∀ (o : Obj) (c : Ctx) (s : St), Adm c → CacheInv s.cache →
-        WeakOK o.pid (Fe.children (preFixCfg true) o c s).1) := by
+        OK o.pid (Fe.children (preFixCfg true) o c s).1) := by
   intro h
   have := h w0.obj ⟨w0, alwaysAlive, denyAt 3 .EACCES⟩ {} (adm_w0_deny 3) cacheInv_empty
   have hrun : (Fe.children (preFixCfg true) w0.obj ⟨w0, alwaysAlive, denyAt 3 .EACCES⟩ {}).1 = .error .perm := by
     decide
   rw [hrun] at this
-  simp [WeakOK] at this
+  exact this
 
 /-- … and the same plan on the repaired source yields a value -/
 theorem C03_children_fixed_witness :
@@ -292,59 +276,57 @@ def notQueries : List String := ["kill", "oneshot", "resume", "send_signal", "su
 /-- queries NOT covered by a C03 theorem (listed, never silently dropped):
     `connections` = deprecated alias of net_connections (adds a warning); `parents` = loop over parent() (C05) -/
 def uncovered : List String := ["connections", "parents"]
-/-- covered by a `_partial` theorem only -/
-def partialOnly : List String := ["children", "parent"]
 /-- covered by its own policy theorem (`C03_as_dict_policy`) -/
 def byPolicy : List String := ["as_dict"]
 
 theorem C03_all_methods (o : Obj) (h0 : o.pid ≠ 0) :
     ∀ nm ∈ publicMethods,
-      nm ∈ notQueries ∨ nm ∈ uncovered ∨ nm ∈ partialOnly ∨ nm ∈ byPolicy ∨ MethodOK o nm :=
+      nm ∈ notQueries ∨ nm ∈ uncovered ∨ nm ∈ byPolicy ∨ MethodOK o nm :=
   show ∀ nm ∈ ["as_dict", "children", "cmdline", "connections", "cpu_affinity", "cpu_num", "cpu_percent", "cpu_times", "create_time", "cwd", "environ", "exe", "gids", "io_counters", "ionice", "is_running", "kill", "memory_full_info", "memory_info", "memory_maps", "memory_percent", "name", "net_connections", "nice", "num_ctx_switches", "num_fds", "num_threads", "oneshot", "open_files", "parent", "parents", "pid", "ppid", "resume", "rlimit", "send_signal", "status", "suspend", "terminal", "terminate", "threads", "uids", "username", "wait"],
-      nm ∈ notQueries ∨ nm ∈ uncovered ∨ nm ∈ partialOnly ∨ nm ∈ byPolicy ∨ MethodOK o nm from
-  List.forall_mem_cons.2 ⟨Or.inr (Or.inr (Or.inr (Or.inl (by decide)))),
-    List.forall_mem_cons.2 ⟨Or.inr (Or.inr (Or.inl (by decide))),
-    List.forall_mem_cons.2 ⟨Or.inr (Or.inr (Or.inr (Or.inr (C03_safe_cmdline o)))),
+      nm ∈ notQueries ∨ nm ∈ uncovered ∨ nm ∈ byPolicy ∨ MethodOK o nm from
+  List.forall_mem_cons.2 ⟨Or.inr (Or.inr (Or.inl (by decide))),
+    List.forall_mem_cons.2 ⟨Or.inr (Or.inr (Or.inr (C03_safe_children o))),
+    List.forall_mem_cons.2 ⟨Or.inr (Or.inr (Or.inr (C03_safe_cmdline o))),
     List.forall_mem_cons.2 ⟨Or.inr (Or.inl (by decide)),
-    List.forall_mem_cons.2 ⟨Or.inr (Or.inr (Or.inr (Or.inr (C03_safe_cpu_affinity o)))),
-    List.forall_mem_cons.2 ⟨Or.inr (Or.inr (Or.inr (Or.inr (C03_safe_cpu_num o)))),
-    List.forall_mem_cons.2 ⟨Or.inr (Or.inr (Or.inr (Or.inr (C03_safe_cpu_percent o)))),
-    List.forall_mem_cons.2 ⟨Or.inr (Or.inr (Or.inr (Or.inr (C03_safe_cpu_times o)))),
-    List.forall_mem_cons.2 ⟨Or.inr (Or.inr (Or.inr (Or.inr (C03_safe_create_time o)))),
-    List.forall_mem_cons.2 ⟨Or.inr (Or.inr (Or.inr (Or.inr (C03_safe_cwd o)))),
-    List.forall_mem_cons.2 ⟨Or.inr (Or.inr (Or.inr (Or.inr (C03_safe_environ o)))),
-    List.forall_mem_cons.2 ⟨Or.inr (Or.inr (Or.inr (Or.inr (C03_safe_exe o)))),
-    List.forall_mem_cons.2 ⟨Or.inr (Or.inr (Or.inr (Or.inr (C03_safe_gids o)))),
-    List.forall_mem_cons.2 ⟨Or.inr (Or.inr (Or.inr (Or.inr (C03_safe_io_counters o)))),
-    List.forall_mem_cons.2 ⟨Or.inr (Or.inr (Or.inr (Or.inr (C03_safe_ionice o)))),
-    List.forall_mem_cons.2 ⟨Or.inr (Or.inr (Or.inr (Or.inr (C03_safe_is_running o)))),
+    List.forall_mem_cons.2 ⟨Or.inr (Or.inr (Or.inr (C03_safe_cpu_affinity o))),
+    List.forall_mem_cons.2 ⟨Or.inr (Or.inr (Or.inr (C03_safe_cpu_num o))),
+    List.forall_mem_cons.2 ⟨Or.inr (Or.inr (Or.inr (C03_safe_cpu_percent o))),
+    List.forall_mem_cons.2 ⟨Or.inr (Or.inr (Or.inr (C03_safe_cpu_times o))),
+    List.forall_mem_cons.2 ⟨Or.inr (Or.inr (Or.inr (C03_safe_create_time o))),
+    List.forall_mem_cons.2 ⟨Or.inr (Or.inr (Or.inr (C03_safe_cwd o))),
+    List.forall_mem_cons.2 ⟨Or.inr (Or.inr (Or.inr (C03_safe_environ o))),
+    List.forall_mem_cons.2 ⟨Or.inr (Or.inr (Or.inr (C03_safe_exe o))),
+    List.forall_mem_cons.2 ⟨Or.inr (Or.inr (Or.inr (C03_safe_gids o))),
+    List.forall_mem_cons.2 ⟨Or.inr (Or.inr (Or.inr (C03_safe_io_counters o))),
+    List.forall_mem_cons.2 ⟨Or.inr (Or.inr (Or.inr (C03_safe_ionice o))),
+    List.forall_mem_cons.2 ⟨Or.inr (Or.inr (Or.inr (C03_safe_is_running o))),
     List.forall_mem_cons.2 ⟨Or.inl (by decide),
-    List.forall_mem_cons.2 ⟨Or.inr (Or.inr (Or.inr (Or.inr (C03_safe_memory_full_info o)))),
-    List.forall_mem_cons.2 ⟨Or.inr (Or.inr (Or.inr (Or.inr (C03_safe_memory_info o)))),
-    List.forall_mem_cons.2 ⟨Or.inr (Or.inr (Or.inr (Or.inr (C03_safe_memory_maps o)))),
-    List.forall_mem_cons.2 ⟨Or.inr (Or.inr (Or.inr (Or.inr (C03_safe_memory_percent o)))),
-    List.forall_mem_cons.2 ⟨Or.inr (Or.inr (Or.inr (Or.inr (C03_safe_name o)))),
-    List.forall_mem_cons.2 ⟨Or.inr (Or.inr (Or.inr (Or.inr (C03_safe_net_connections o)))),
-    List.forall_mem_cons.2 ⟨Or.inr (Or.inr (Or.inr (Or.inr (C03_safe_nice o)))),
-    List.forall_mem_cons.2 ⟨Or.inr (Or.inr (Or.inr (Or.inr (C03_safe_num_ctx_switches o)))),
-    List.forall_mem_cons.2 ⟨Or.inr (Or.inr (Or.inr (Or.inr (C03_safe_num_fds o)))),
-    List.forall_mem_cons.2 ⟨Or.inr (Or.inr (Or.inr (Or.inr (C03_safe_num_threads o)))),
+    List.forall_mem_cons.2 ⟨Or.inr (Or.inr (Or.inr (C03_safe_memory_full_info o))),
+    List.forall_mem_cons.2 ⟨Or.inr (Or.inr (Or.inr (C03_safe_memory_info o))),
+    List.forall_mem_cons.2 ⟨Or.inr (Or.inr (Or.inr (C03_safe_memory_maps o))),
+    List.forall_mem_cons.2 ⟨Or.inr (Or.inr (Or.inr (C03_safe_memory_percent o))),
+    List.forall_mem_cons.2 ⟨Or.inr (Or.inr (Or.inr (C03_safe_name o))),
+    List.forall_mem_cons.2 ⟨Or.inr (Or.inr (Or.inr (C03_safe_net_connections o))),
+    List.forall_mem_cons.2 ⟨Or.inr (Or.inr (Or.inr (C03_safe_nice o))),
+    List.forall_mem_cons.2 ⟨Or.inr (Or.inr (Or.inr (C03_safe_num_ctx_switches o))),
+    List.forall_mem_cons.2 ⟨Or.inr (Or.inr (Or.inr (C03_safe_num_fds o))),
+    List.forall_mem_cons.2 ⟨Or.inr (Or.inr (Or.inr (C03_safe_num_threads o))),
     List.forall_mem_cons.2 ⟨Or.inl (by decide),
-    List.forall_mem_cons.2 ⟨Or.inr (Or.inr (Or.inr (Or.inr (C03_safe_open_files o)))),
-    List.forall_mem_cons.2 ⟨Or.inr (Or.inr (Or.inl (by decide))),
+    List.forall_mem_cons.2 ⟨Or.inr (Or.inr (Or.inr (C03_safe_open_files o))),
+    List.forall_mem_cons.2 ⟨Or.inr (Or.inr (Or.inr (C03_safe_parent o))),
     List.forall_mem_cons.2 ⟨Or.inr (Or.inl (by decide)),
-    List.forall_mem_cons.2 ⟨Or.inr (Or.inr (Or.inr (Or.inr (C03_safe_pid o)))),
-    List.forall_mem_cons.2 ⟨Or.inr (Or.inr (Or.inr (Or.inr (C03_safe_ppid o)))),
+    List.forall_mem_cons.2 ⟨Or.inr (Or.inr (Or.inr (C03_safe_pid o))),
+    List.forall_mem_cons.2 ⟨Or.inr (Or.inr (Or.inr (C03_safe_ppid o))),
     List.forall_mem_cons.2 ⟨Or.inl (by decide),
-    List.forall_mem_cons.2 ⟨Or.inr (Or.inr (Or.inr (Or.inr (C03_safe_rlimit o h0)))),
+    List.forall_mem_cons.2 ⟨Or.inr (Or.inr (Or.inr (C03_safe_rlimit o h0))),
     List.forall_mem_cons.2 ⟨Or.inl (by decide),
-    List.forall_mem_cons.2 ⟨Or.inr (Or.inr (Or.inr (Or.inr (C03_safe_status o)))),
+    List.forall_mem_cons.2 ⟨Or.inr (Or.inr (Or.inr (C03_safe_status o))),
     List.forall_mem_cons.2 ⟨Or.inl (by decide),
-    List.forall_mem_cons.2 ⟨Or.inr (Or.inr (Or.inr (Or.inr (C03_safe_terminal o)))),
+    List.forall_mem_cons.2 ⟨Or.inr (Or.inr (Or.inr (C03_safe_terminal o))),
     List.forall_mem_cons.2 ⟨Or.inl (by decide),
-    List.forall_mem_cons.2 ⟨Or.inr (Or.inr (Or.inr (Or.inr (C03_safe_threads o)))),
-    List.forall_mem_cons.2 ⟨Or.inr (Or.inr (Or.inr (Or.inr (C03_safe_uids o)))),
-    List.forall_mem_cons.2 ⟨Or.inr (Or.inr (Or.inr (Or.inr (C03_safe_username o)))),
+    List.forall_mem_cons.2 ⟨Or.inr (Or.inr (Or.inr (C03_safe_threads o))),
+    List.forall_mem_cons.2 ⟨Or.inr (Or.inr (Or.inr (C03_safe_uids o))),
+    List.forall_mem_cons.2 ⟨Or.inr (Or.inr (Or.inr (C03_safe_username o))),
     List.forall_mem_cons.2 ⟨Or.inl (by decide),
     (fun _ h => nomatch h)⟩⟩⟩⟩⟩⟩⟩⟩⟩⟩⟩⟩⟩⟩⟩⟩⟩⟩⟩⟩⟩⟩⟩⟩⟩⟩⟩⟩⟩⟩⟩⟩⟩⟩⟩⟩⟩⟩⟩⟩⟩⟩⟩⟩
 
